@@ -61,10 +61,19 @@ _ZOO = None
 _MODELS: dict = {}
 
 
+_THOROUGH = False
+
+
+def prepare(ctx: Ctx):
+    global _THOROUGH, _ZOO
+    if ctx.thorough != _THOROUGH:
+        _THOROUGH, _ZOO = ctx.thorough, None
+
+
 def zoo():
     global _ZOO
     if _ZOO is None:
-        _ZOO = Z.zoo()
+        _ZOO = Z.zoo(thorough=_THOROUGH)
     return _ZOO
 
 
@@ -134,7 +143,10 @@ def _run_case(e, m, n, coils, h, w, z, seed):
     except Exception as ex:  # noqa: BLE001
         return "raises-" + err_name(ex), f"{err_name(ex)}: {str(ex)[:160]}"
     exp = Z.expected_shape(e, n, coils, h, w, z)
-    if tuple(out.shape) != exp:
+    if exp is None:
+        if not Z.auto_shape_ok(tuple(out.shape), n, coils, h, w, z):
+            return "wrong-shape", f"output shape {tuple(out.shape)} is none of the documented image / k-space layouts"
+    elif tuple(out.shape) != exp:
         return "wrong-shape", f"output shape {tuple(out.shape)}, documented {exp}"
     if not bool(torch.isfinite(out).all()):
         return "nonfinite", f"{int((~torch.isfinite(out)).sum())} non-finite values of {out.numel()}"
@@ -353,7 +365,7 @@ def _violation(e, cat, detail, n, coils, h, w, z, seed):
             "nonfinite": "returns non-finite values"}.get(cat, "fails instead of producing an output")
     return Violation(f"{e.name}:{cat}", f"{e.name} {what} for batch={n} coils={coils} size={(z, h, w) if z else (h, w)}: {detail}",
                      {"op": "forward", "entry": e.name, "batch": n, "coils": coils, "h": h, "w": w, "z": z, "seed": seed,
-                      "expected_shape": list(Z.expected_shape(e, n, coils, h, w, z)), "observed": detail})
+                      "expected_shape": list(Z.expected_shape(e, n, coils, h, w, z) or []), "observed": detail})
 
 
 def _oracle_entry(e, cases):
@@ -363,8 +375,11 @@ def _oracle_entry(e, cases):
 
 
 def _worker(args):
+    global _THOROUGH, _ZOO
     name, cases = args
     torch.set_num_threads(1)
+    if not _THOROUGH:
+        _THOROUGH, _ZOO = True, None
     e = next(x for x in zoo() if x.name == name)
     return name, _oracle_entry(e, cases)
 
@@ -434,7 +449,7 @@ def oracle(ctx: Ctx, deep: bool = False):
 def replay(rep: dict) -> bool:
     if rep.get("op") != "forward":
         return True
-    e = next((x for x in zoo() if x.name == rep["entry"]), None)
+    e = next((x for x in Z.zoo(thorough=True) if x.name == rep["entry"]), None)
     if e is None:
         return True
     cat, _detail = _run_case(e, model_of(e), rep["batch"], rep["coils"], rep["h"], rep["w"], rep.get("z"), rep.get("seed", 0))
